@@ -81,6 +81,12 @@ func Harness_C26_tree() {
 	cproof := tree.ConsistencyProof(uint32(k), uint32(sz))
 	assert(ver.VerifyConsistency(uint32(k), uint32(sz), roots[k], roots[sz], cproof) == nil, "consistency-proof-verifies")
 	if k < sz {
+		// a proof with a spare hash appended, or with its last hash missing, is not a proof
+		cext := append(append([]common.Uint256{}, cproof...), c26Sym("cextra"))
+		assert(ver.VerifyConsistency(uint32(k), uint32(sz), roots[k], roots[sz], cext) != nil, "extended-consistency-proof-rejected")
+		if len(cproof) > 0 {
+			assert(ver.VerifyConsistency(uint32(k), uint32(sz), roots[k], roots[sz], cproof[:len(cproof)-1]) != nil, "truncated-consistency-proof-rejected")
+		}
 		badOld := c26Sym("badold")
 		if badOld != roots[k] && badOld != roots[sz] {
 			assert(ver.VerifyConsistency(uint32(k), uint32(sz), badOld, roots[sz], cproof) != nil, "consistency-wrong-old-root-rejected")
